@@ -151,6 +151,13 @@ func runCheck(o *options, overlay map[string][]byte) (*checkResult, error) {
 	if err := w.loadContracts(); err != nil {
 		return nil, err
 	}
+	for _, eng := range meta.Engines {
+		if eng == "reloadmap" {
+			if err := w.reloadMapClauses(o, res); err != nil {
+				res.errors = append(res.errors, fmt.Sprintf("engine reloadmap: %v", err))
+			}
+		}
+	}
 	cts := w.selectContracts(o.prop)
 	for _, ct := range cts {
 		fn := w.findFunc(ct.PkgPath, ct.Key)
@@ -229,6 +236,9 @@ func oblOK(ob *Obligation) bool {
 }
 
 func solveAll(obls []*Obligation, qdir string, timeout time.Duration) {
+	for _, ob := range obls {
+		ob.Ctx.sliceIdx() // build the slicing index sequentially (it is shared by the workers)
+	}
 	sem := make(chan struct{}, 8)
 	var wg sync.WaitGroup
 	for _, ob := range obls {
@@ -237,7 +247,7 @@ func solveAll(obls []*Obligation, qdir string, timeout time.Duration) {
 			defer wg.Done()
 			sem <- struct{}{}
 			defer func() { <-sem }()
-			q := ob.queryText()
+			q := ob.slicedQuery()
 			if ob.Cover {
 				// cover checks only need one solver; unknown is acceptable, unsat is vacuity
 				ob.Result = runQuery(qdir, ob.Name, q, timeout/2, false, []string{"z3-new"})
@@ -278,7 +288,7 @@ func solveAll(obls []*Obligation, qdir string, timeout time.Duration) {
 			sem2 <- struct{}{}
 			defer func() { <-sem2 }()
 			first := ob.Result
-			r := runQuery(qdir, ob.Name+".retry", ob.queryText(), long, false, nil)
+			r := runQuery(qdir, ob.Name+".retry", ob.slicedQuery(), long, false, nil)
 			r.Time += first.Time
 			ob.Result = r
 			ob.Retried = true
@@ -443,7 +453,7 @@ func writeReplay(o *options, res *checkResult, ob *Obligation, path string) bool
 		"solver_output": truncate(ob.Result.Output, 20000),
 	}
 	qpath := strings.TrimSuffix(path, ".json") + ".smt2"
-	_ = os.WriteFile(qpath, []byte(ob.queryText()+"(check-sat)\n(get-model)\n"), 0o644)
+	_ = os.WriteFile(qpath, []byte(ob.slicedQuery()+"(check-sat)\n(get-model)\n"), 0o644)
 	rec["query_file"] = qpath
 	found := false
 	if ob.Result.Status == "sat" {
@@ -556,7 +566,7 @@ func writeEvidence(o *options, res *checkResult, violations int) {
 	for i := 0; i < len(res.obls); i += step {
 		ob := res.obls[i]
 		samples = append(samples, map[string]any{"obligation": ob.Name, "kind": ob.Kind, "at": relPos(ob.Pos), "what": truncate(ob.Desc, 200),
-			"status": ob.Result.Status, "solver": ob.Result.Solver, "time_s": round3(ob.Result.Time), "smt_bytes": len(ob.queryText()), "expected": expectedStatus(ob)})
+			"status": ob.Result.Status, "solver": ob.Result.Solver, "time_s": round3(ob.Result.Time), "smt_bytes": len(ob.slicedQuery()), "expected": expectedStatus(ob)})
 	}
 	cov := map[string]any{
 		"obligations":               total,
